@@ -19,7 +19,7 @@ def run(rep):
     control.parse_deductive(rep, control.PARSE_CLAUSE + ['visitSimplepredicate', 'visitTermpredicate'])
     control.program_deductive(rep)
     q = rep.tier == 'quick'
-    fw.standin(rep, 's_c11.py', ['run', rep.seed, 250 if q else 4000],
+    fw.standin(rep, 's_c11.py', ['run', rep.seed, 450 if q else 4000],
                'boundary corpus + generated programs: accepted output compiles, loads, defines exactly the clause-head keys as generator functions',
                'numeral spellings, reserved-looking variable names, failing bodies, long conjunctions, deep nesting of control constructs and terms')
     fw.standin(rep, 'recog.py', ['run', 'accept', rep.seed + 3, 1500 if q else 30000],
